@@ -387,6 +387,26 @@ theorem filter_spe_overwrites (v : Rat) (xs : List Rat) (m : List Bool) (i : Nat
       | zero => simp [overwrite]
       | succ i => simp only [overwrite, List.getElem_cons_succ]; exact ih m i (by simpa using hi) hm
 
+/-! ### Why float division agrees with the exact selectors away from astronomically large budgets -/
+
+/-- An exact progress fraction `a/b` and a documented threshold `p/q` are either equal or at least `1/(b·q)` apart.
+    (A correctly rounded float quotient is within relative 2⁻⁵³ of `a/b` and the float literal within 2⁻⁵³ of `p/q`,
+    so the float comparison can only differ from the exact one when `b·q` exceeds about 2⁵¹; at equality both
+    sides round to the same float.  The rounding facts themselves are not modelled.) -/
+theorem threshold_gap (a b p q : Int) (hb : 0 < b) (hq : 0 < q) (hne : a * q ≠ p * b) :
+    (1 : Rat) / ((b * q : Int) : Rat) ≤ |(a : Rat) / (b : Rat) - (p : Rat) / (q : Rat)| := by
+  have hbq : (0 : Rat) < (b : Rat) := by exact_mod_cast hb
+  have hqq : (0 : Rat) < (q : Rat) := by exact_mod_cast hq
+  have e : (a : Rat) / (b : Rat) - (p : Rat) / (q : Rat) = ((a * q - p * b : Int) : Rat) / ((b * q : Int) : Rat) := by
+    push_cast; field_simp
+  rw [e, abs_div]
+  have hpos : (0 : Rat) < ((b * q : Int) : Rat) := by push_cast; positivity
+  rw [abs_of_pos hpos]
+  apply div_le_div_of_nonneg_right _ (le_of_lt hpos)
+  have hz : (a * q - p * b : Int) ≠ 0 := sub_ne_zero.mpr hne
+  have : (1 : Int) ≤ |a * q - p * b| := Int.one_le_abs hz
+  exact_mod_cast this
+
 /-! ### Non-vacuity -/
 
 example : (identify_multimetric_phase false 100 40 0 0).1 = .CONVEX_COMBINATION_RANDOM_SPREAD := by decide +kernel
